@@ -515,23 +515,21 @@ def check_result_arrays(ctx):
         # the function is executed abstractly for each request type; the length passed to alloc_array is evaluated for number = 3
         bm = b.module
         consts = {nm: ctx.ev.try_eval(ast.Name(id=nm, ctx=ast.Load()), bm) for nm in ("OK_FIELDS_K", "OK_FIELDS_M")}
-        tps = {k_: G.Sym(f"EPRType.{k_}") for k_ in ("K", "M", "R")}
-        pnum, ptp = A.param_names(ar)[1:3]
-        for k_, sym in tps.items():
+        from .. import circuit as C
+        from ..model import EnumMember
+        ety = repo.get_class("netqasm.qlink_compat", "EPRType")
+        emem = ctx.ev.enum_members(ety)
+        for k_ in ("K", "M", "R"):
             got = []
-
-            def on_call(c, env_, got=got):
-                if A.call_name(c) == "alloc_array":
-                    a_ = A.kwargs_of(c).get("length", c.args[0] if c.args else None)
-                    try:
-                        got.append(G.peval(a_, env_) if a_ is not None else None)
-                    except Unknown:
-                        got.append("?")
-
-            env = dict({f"EPRType.{x}": s_ for x, s_ in tps.items()}, **{ptp: sym, pnum: 3}, **{n_: v_ for n_, v_ in consts.items() if v_ is not None})
+            sc = C.Scenario()
+            sc.globals = {n_: v_ for n_, v_ in consts.items() if v_ is not None}
+            sc.overrides["alloc_array"] = lambda length=None, *a_, got=got, **kw_: got.append(length if length is not None else (a_[0] if a_ else None))
+            bo = C.object_from_init(repo, b, {}, kind="self")
             try:
-                G.run_block(A.strip_docstring(ar.body), env, on_call)
-            except Unknown as ex_:
+                C.Interp(repo, ctx.ev, sc, b).call_function(bm, ar, [], {"number": 3, "tp": EnumMember(ety.qualname, k_, emem[k_])}, self_obj=bo)
+            except C.EvalRaise as ex_:
+                got.append(f"raises {ex_}")
+            except AnalysisError as ex_:
                 got.append(f"? ({ex_})")
             sizes[k_] = got
             fields = consts["OK_FIELDS_K"] if k_ == "K" else consts["OK_FIELDS_M"]
